@@ -98,6 +98,7 @@ def run(mod, spec):
     warnings.filterwarnings('ignore')
     import logging
     logging.lastResort = logging.NullHandler()
+    logging.getLogger().addHandler(logging.NullHandler())
     MODE['replay'] = True
     MODE['tmp'] = tempfile.mkdtemp(prefix='sxreplay')
     try:
